@@ -1240,8 +1240,9 @@ func vKindLarge(c *vCtx, cfg vVecCfg, sizes []int, hook func(s *vKindSys, h []st
 	c.Sample(fmt.Sprintf("%s: large instances n in %v, k up to n, every 7th removed, flush", cfg.String(), sizes))
 }
 
-// id bases of the "bigids" shards: ids straddle 2^16, 2^31 and end at 2^32-1
-var vIDBases = []uint32{65533, 1<<31 - 3, math.MaxUint32 - 14}
+// id bases of the "bigids" shards: ids 0, 1, 2 (base 2^32-1 wraps around: id 0 is an id like
+// any other), ids that straddle 2^16, 2^31 and end at 2^32-1
+var vIDBases = []uint32{math.MaxUint32, 65533, 1<<31 - 3, math.MaxUint32 - 14}
 
 func vIDBaseTag() string {
 	if vIDBase == 0 {
@@ -1432,6 +1433,9 @@ func init() {
 				sh = append(sh, vShard{Name: "endurance/" + strings.ReplaceAll(cfg.String(), " ", ","), Run: func(c *vCtx) { vKindEndurance(c, cfg, 70000, nil) }})
 				for _, base := range vIDBases {
 					base := base
+					if base == math.MaxUint32 && cfg.Kind == "hnsw" {
+						continue // for an HNSW Add id 0 means "assign an id": not an explicit id
+					}
 					sh = append(sh, vShard{Name: fmt.Sprintf("bigids/%d/%s", base, strings.ReplaceAll(cfg.String(), " ", ",")), Run: func(c *vCtx) {
 						vIDBase = base
 						defer func() { vIDBase = 0 }()
